@@ -433,8 +433,16 @@ pub fn gen_plan(rng: &mut Rng, k: &HistKnobs) -> HistPlan {
                     _ => rng.range(0, 3),
                 })),
                 3 => {
-                    ops.push(Op::Predict(rng.below(preds.len())));
+                    let p = rng.below(preds.len());
+                    ops.push(Op::Predict(p));
                     if k.focus == Focus::C08 && rng.chance(1, 2) {
+                        ops.push(Op::FillTags);
+                    }
+                    if k.focus == Focus::C08 && preds.len() > 1 && rng.chance(1, 4) {
+                        // predictor switch on the same text, without an update in between: what
+                        // predictor A left in the sentence must not leak into B's results
+                        let q = (p + 1 + rng.below(preds.len() - 1)) % preds.len();
+                        ops.push(Op::Predict(q));
                         ops.push(Op::FillTags);
                     }
                 }
